@@ -27,8 +27,14 @@ def theorems_of(files):
     return out
 
 
-def P(files, streams, text, findings=(), partial="", assumptions=(), trusted_extra=()):
-    return {"files": list(files), "theorems": theorems_of(files), "streams": list(streams), "text": text,
+def P(files, streams, text, findings=(), partial="", assumptions=(), trusted_extra=(), generated=(), race_build=False):
+    gen_thms = []
+    for gfile in generated:
+        gp = os.path.join(ROOT, "coq", gfile + ".v")
+        if os.path.exists(gp):
+            txt = re.sub(r"\(\*.*?\*\)", "", open(gp, encoding="utf-8", errors="replace").read(), flags=re.S)
+            gen_thms += [(gfile, m.group(1)) for m in re.finditer(r"^\s*Theorem\s+([A-Za-z0-9_']+)", txt, flags=re.M)]
+    return {"files": list(files), "theorems": theorems_of(files) + gen_thms, "generated": list(generated), "race_build": race_build, "streams": list(streams), "text": text,
             "findings": list(findings), "partial": partial, "assumptions": list(assumptions),
             "trusted_extra": list(trusted_extra)}
 
@@ -59,6 +65,25 @@ PROPS = {
              "+ correspondence: histories, save, more changes, save with on-disk copies at every stage (verifPoint), clean shutdown, restart; every copy must load as old or new",
              partial="encoding/gob round-trips the record types, POSIX rename is atomic, no fsync reasoning: trusted",
              assumptions=["file system and gob are modelled at record level (Persist.v)"]),
+    "C12": P(["PropC12", "PropC11"], ["C12"],
+             "how a block ends: the capture protocol (Capture.v: every operation one critical section) delivers at most one unblock per capture, never across a release, "
+             "reports whether the client was blocked, is re-usable; timeout conversion never turns a positive timeout into 'forever', the timer branch cannot fire early; "
+             "leaving by timeout/unblock passes an unused wake-up on (Wait.v: LGiveUp) + correspondence: timeouts measured against the client clock, CLIENT UNBLOCK "
+             "TIMEOUT|ERROR with the target held at each schedule point, CLIENT KILL and peer close of a blocked client, re-use after every ending",
+             findings=["client-unblock-reply-not-blocked"],
+             partial="timer accuracy and TCP close notification of the Go runtime are taken as labels of the model"),
+    "C16": P(["PropC16"], ["C16"],
+             "data-race freedom: lock-set soundness theorem (a disciplined, mutex-respecting trace orders every pair of conflicting accesses by a release/acquire on the "
+             "common lock) and the per-run obligations on the regenerated lock table (every store method that touches the database holds its lock) + correspondence: "
+             "the emulator built with the Go race detector under a workload that overlaps every command class; every report located in the emulator is a violation",
+             generated=["LockFacts", "GenLockCheck"], race_build=True,
+             partial="the Go memory model, races inside dependencies and accesses the syntactic table cannot see are outside the model; for fields not guarded by the database lock "
+                     "(session fields, statistics, connection flags) the deciding evidence is the race-detector run, not a theorem"),
+    "C20": P(["PropC20"], ["C20"],
+             "lifecycle: wait-group model of an emulator instance with tracked connections (Lifecycle.v): termination can always complete by steps of the emulator alone, "
+             "after it no command of an old connection and no accept is enabled, instances do not touch each other's data or clients + correspondence: Close() latency with "
+             "clients idle / mid-pipeline / in MULTI / blocked / busy, old connections refused afterwards, data unchanged, successor on the same port starts empty, two instances, start/stop cycles",
+             partial="TIME_WAIT/port reuse, goroutine leaks and os.Exit on a failed listen are runtime behaviour outside the model"),
     "C13": P(["PropC13", "PropC06"], ["C13", "C01"],
              "robustness: the parser model has explicit Panic outcomes at every Go indexing site and is proved never to reach one (all byte strings), a parsed "
              "value consumes between 1 and all buffered bytes, the connection loop never panics; every command of the table that fails leaves the state "
@@ -93,6 +118,15 @@ PROPS = {
              "TTL reporting and per-command deadline rules + correspondence with keys in each lifetime phase (real clock, margins)",
              findings=["exat-deadline-nanoseconds"],
              assumptions=SEQ_ASSUME + ["timer/clock accuracy of the Go runtime is trusted; observations keep >= 50 ms away from deadlines"]),
+    "C08": P(["PropC08"], ["C08"],
+             "atomicity: a machine of invoke/execute/respond events in which 'execute' is one step of the sequential emulator is linearizable in execute order "
+             "(replies and final state equal the sequential run, program order and real-time order respected; any number of clients and interleavings); that every Go "
+             "command really is one lock section is re-checked on every run from the regenerated fact table (GenLockCheck.v over LockFacts.v: every store method "
+             "locks its whole body, every handler calls one locking method) + correspondence: concurrent histories on the real emulator checked for linearizability "
+             "against the extracted model (search re-validated by the model itself)",
+             generated=["LockFacts", "GenLockCheck"],
+             partial="that sync.Mutex excludes and that the scheduler realises only interleavings of lock sections is trusted; the fact table is syntactic (go/ast)",
+             assumptions=["factgen (go/ast pass in harness/factgen.go) is in the trusted base"]),
     "C09": P(["PropC09"], ["C09"],
              "MULTI/EXEC state machine: queued commands have no effect, EXEC runs the queue in order with one reply each and never blocks, "
              "flagged transactions abort, state reset after EXEC/DISCARD, control errors inert (all programs) + correspondence of transaction "
